@@ -84,6 +84,29 @@ def _negative(test) -> bool:
     return isinstance(test, ast.Compare) and len(test.ops) == 1 and isinstance(test.ops[0], _NEGATIVE)
 
 
+def _multi_assign(stmts):
+    """([names], [values]) when the block is nothing but assignments of pure values to distinct local names, none of which
+    reads one of those names (so they commute with each other and with a common test): `x, y = a, b` or `x = a; y = b`."""
+    names, vals = [], []
+    for s in stmts:
+        if not (isinstance(s, ast.Assign) and len(s.targets) == 1):
+            return None
+        t, v = s.targets[0], s.value
+        if isinstance(t, ast.Name):
+            names.append(t.id)
+            vals.append(v)
+        elif isinstance(t, ast.Tuple) and isinstance(v, ast.Tuple) and len(t.elts) == len(v.elts) and all(isinstance(e, ast.Name) for e in t.elts):
+            names.extend(e.id for e in t.elts)
+            vals.extend(v.elts)
+        else:
+            return None
+    if not names or len(set(names)) != len(names):
+        return None
+    if not all(_pure(v) and not any(_uses(v, n) for n in names) for v in vals):
+        return None
+    return names, vals
+
+
 def ifexp(test, a, b):
     """`a if test else b` with the positive spelling of the test (the two spellings are the same expression)."""
     if _negative(test):
@@ -384,6 +407,12 @@ class _Stmts:
             a, b = _single_assign(s.body), _single_assign(s.orelse)
             if a is not None and b is not None and _dump(a.targets[0]) == _dump(b.targets[0]) and _pure(s.test):
                 return ast.copy_location(ast.Assign(targets=[a.targets[0]], value=ifexp(s.test, a.value, b.value)), s)
+            # if c: x, y = a1, a2  else: x, y = b1, b2   ->   x, y = (a1, a2) if c else (b1, b2)
+            ma, mb = _multi_assign(s.body), _multi_assign(s.orelse)
+            if ma is not None and mb is not None and len(ma[0]) >= 2 and ma[0] == mb[0] and _pure(s.test) and not any(_uses(s.test, n) for n in ma[0]):
+                tgt = ast.Tuple(elts=[ast.Name(id=n, ctx=ast.Store()) for n in ma[0]], ctx=ast.Store())
+                val = ifexp(s.test, ast.Tuple(elts=ma[1], ctx=ast.Load()), ast.Tuple(elts=mb[1], ctx=ast.Load()))
+                return ast.copy_location(ast.fix_missing_locations(ast.Assign(targets=[tgt], value=val, type_comment=None)), s)
             ca, cb = _single_append(s.body), _single_append(s.orelse)
             if ca is not None and cb is not None and _dump(ca.func) == _dump(cb.func) and _pure(s.test):
                 call = ast.Call(func=ca.func, args=[ifexp(s.test, ca.args[0], cb.args[0])], keywords=[])
